@@ -1,11 +1,13 @@
 import Pocket.Model.Verify
 import Pocket.Lemmas.Total
+import Pocket.Lemmas.CanonInj
 /-
 C08 — verification accepts exactly correctly hashed and signed events.
 SHA-256 (`H`) and BIP-340 (`SV`) are parameters; nothing is assumed about them except where a
-theorem states it as a hypothesis.  PARTIAL: that the serialization determines the fields
-(injectivity of `canon`, needed for "any single-field change is detected") is checked by
-mutation on the real code, not proved here.
+theorem states it as a hypothesis.  The serialization determines the hashed fields
+(`canon_determines_fields`: injectivity of `canon` on well-formed UTF-8 events, via the parsers as
+its inverse), so ANY change to pubkey, created_at, kind, tags or content of a verifying event is
+detected as soon as the hash does not collide on the two serializations (`field_tamper_detected`).
 -/
 namespace Pocket.C08
 open Pocket
@@ -90,5 +92,47 @@ theorem content_tamper_detected (H : Bytes → Bytes) (SV : Bytes → Bytes → 
   rw [hc']
   have : H c' ≠ e'.id := by rw [hid, hid0]; exact fun h => hcol hdiff h.symm
   simp [this]
+
+/-- the hashed serialization determines every hashed field -/
+theorem canon_determines_fields (e₁ e₂ : EventRec) (s₁ : EventSized e₁) (s₂ : EventSized e₂)
+    (b₁ : ∀ x ∈ e₁.pubkey, x < 256) (b₂ : ∀ x ∈ e₂.pubkey, x < 256)
+    (t₁ : TagsUtf8 e₁.tags) (t₂ : TagsUtf8 e₂.tags) (u₁ : IsUtf8 e₁.content) (u₂ : IsUtf8 e₂.content)
+    (c : Bytes) (h₁ : canon e₁ = .ok c) (h₂ : canon e₂ = .ok c) :
+    e₁.pubkey = e₂.pubkey ∧ e₁.createdAt = e₂.createdAt ∧ e₁.kind = e₂.kind ∧ e₁.tags = e₂.tags ∧
+      e₁.content = e₂.content :=
+  canon_injective e₁ e₂ s₁ s₂ b₁ b₂ t₁ t₂ u₁ u₂ c h₁ h₂
+
+/-- **any single-field change is detected**: `e` verifies; `e'` is a well-formed event with the same
+id that differs from `e` in pubkey, created_at, kind, tags or content (sig may differ or not); if the
+hash does not collide on their two serializations, `e'` is rejected -/
+theorem field_tamper_detected (H : Bytes → Bytes) (SV : Bytes → Bytes → Bytes → Bool) (e e' : EventRec)
+    (s : EventSized e) (s' : EventSized e') (b : ∀ x ∈ e.pubkey, x < 256) (b' : ∀ x ∈ e'.pubkey, x < 256)
+    (t : TagsUtf8 e.tags) (t' : TagsUtf8 e'.tags) (u : IsUtf8 e.content) (u' : IsUtf8 e'.content)
+    (hv : verify H SV e = .ok ()) (hid : e'.id = e.id)
+    (hdiff : e'.pubkey ≠ e.pubkey ∨ e'.createdAt ≠ e.createdAt ∨ e'.kind ≠ e.kind ∨ e'.tags ≠ e.tags ∨
+      e'.content ≠ e.content)
+    (hcol : ∀ c c', canon e = .ok c → canon e' = .ok c' → c ≠ c' → H c ≠ H c') :
+    verify H SV e' = .err := by
+  obtain ⟨c, hc, _, _⟩ := (verify_iff H SV e).mp hv
+  cases hc' : canon e' with
+  | ok c' =>
+    have hne : c ≠ c' := by
+      intro heq
+      subst heq
+      obtain ⟨h1, h2, h3, h4, h5⟩ := canon_injective e e' s s' b b' t t' u u' c hc hc'
+      rcases hdiff with h | h | h | h | h
+      · exact h h1.symm
+      · exact h h2.symm
+      · exact h h3.symm
+      · exact h h4.symm
+      · exact h h5.symm
+    exact content_tamper_detected H SV e e' c c' hv hc hc' hid (hcol c c' hc hc') hne
+  | err => simp [verify, hc']
+  | panic =>
+    -- serialization of a UTF-8 event never panics
+    exfalso
+    obtain ⟨tj, htj⟩ := tagsJson_ok e'.tags t'
+    obtain ⟨ec, hec⟩ := IsUtf8_escape e'.content u'
+    simp [canon, htj, hec] at hc'
 
 end Pocket.C08
